@@ -560,6 +560,27 @@ def _check_input_replacement(ctx, reach_all):
             modes = [m for c, m in open_calls(prog, f)
                      if c.args and T.of(c.args[0]) == src]
             ok = bool(modes) and all(str(m)[0] in "wx" for m in modes)
+            if ok:
+                # "by this run": the truncating open lies on every path that
+                # reaches the replacement - a guard that skips the producer
+                # (a file found on disk, a cache flag) lets a file nobody
+                # wrote in this run replace the input
+                cfg = CFG(f.node)
+                opens = {cfg.node_of(c).id for c, m in open_calls(prog, f)
+                         if c.args and T.of(c.args[0]) == src}
+                mvn = cfg.node_of(mv).id
+                if not cfg.every_path_passes(cfg.entry.id, mvn, opens):
+                    w = cfg.witness_path(cfg.entry.id, mvn, opens)
+                    ctx.fail("C09d-replacement-is-fresh", f,
+                             f"{ast.unparse(mv)[:60]}: a path reaches the "
+                             "replacement without opening the replacing "
+                             "file",
+                             "the file moved over the input is not written "
+                             "by this run on the path "
+                             + (cfg.describe_path(w) if w else "?")
+                             + ": a leftover of an interrupted run replaces "
+                             "the user's input", node=mv)
+                    continue
             ctx.check(ok, "C09d-replacement-is-fresh", f,
                       f"{ast.unparse(mv)[:60]}: the replacing file was "
                       "opened in truncating mode by this run",
